@@ -211,6 +211,17 @@ class Report:
             code = 2
         return code
 
+def native_search_for_undischarged(o, fallback, cache, label):
+    """an obligation that is not proved and has no replayed counter-model: the function's bounded native search decides whether an input fails on the real code (memoised in `cache`);
+    a failing input makes the obligation REFUTED with that input, a clean search is recorded so that `Report.classify` can call the obligation undecided instead of a violation"""
+    if o.status != UNKNOWN or not fallback: return
+    if '$fb' not in cache:
+        try: cache['$fb'] = fallback(label)
+        except Exception as e: cache['$fb'] = dict(confirmed=False, crashed=True, note=f'native search crashed: {e!r}')
+    fb = cache['$fb']
+    if fb and fb.get('confirmed'): o.status = REFUTED; o.replay = dict(fb, note='undischarged obligation; failing input found by the bounded native search of this function')
+    elif not (fb or {}).get('crashed'): o.replay = dict(confirmed=False, native_search_ran=True, note='undischarged obligation; the bounded native search of this function found no failing input')
+
 def oracle_selfcheck(rep, fn, fallback, all_proved, label='oracle-selfcheck'):
     """thorough tier: the native search that decides `engine-subset` obligations (it only runs when the engine cannot follow a changed function) is executed on the
     CURRENT function as well; if it reports a failing input although every obligation of that function is proved, the oracle itself is wrong (it would raise false alarms)"""
